@@ -27,6 +27,7 @@ def translate(dst):
 
 CFGS = {
     "back":     '[fam |-> "back", b11 |-> FALSE, fct |-> FALSE, fpa |-> FALSE]',
+    "back_circ": '[fam |-> "back", b11 |-> FALSE, fct |-> FALSE, fpa |-> FALSE]',
     "back_fct": '[fam |-> "back", b11 |-> FALSE, fct |-> TRUE, fpa |-> FALSE]',
     "back11":   '[fam |-> "back", b11 |-> TRUE, fct |-> FALSE, fpa |-> FALSE]',
     "mp11":     '[fam |-> "mp11", b11 |-> FALSE, fct |-> FALSE, fpa |-> FALSE]',
